@@ -277,10 +277,26 @@ pub fn all_vals(t: &Ty) -> Vec<J> {
 }
 /// sums of two different depth-2 types of equal bit width: the layouts in which padding of one arm meets none in the other
 pub fn equal_width_sums() -> Vec<Ty> {
-    let s = tys_up_to(2);
-    let mut out = vec![];
-    for a in &s { for b in &s { if a != b && a.width() == b.width() && a.width() > 0 { out.push(Ty::sum(a.clone(), b.clone())); } } }
-    out
+    fn has_padding(t: &Ty) -> bool {
+        match t { Ty::Unit => false, Ty::Sum(a, b) => a.width() != b.width() || has_padding(a) || has_padding(b), Ty::Prod(a, b) => has_padding(a) || has_padding(b) }
+    }
+    let mut s = tys_up_to(2);
+    s.dedup();
+    let mut uniq: Vec<Ty> = vec![];
+    for t in s { if !uniq.contains(&t) { uniq.push(t); } }
+    let (mut first, mut rest) = (vec![], vec![]);
+    for a in &uniq { for b in &uniq {
+        if a != b && a.width() == b.width() && a.width() > 0 {
+            // one arm padded, the other not: first in line
+            if has_padding(a) != has_padding(b) { first.push(Ty::sum(a.clone(), b.clone())); } else { rest.push(Ty::sum(a.clone(), b.clone())); }
+        }
+    } }
+    first.extend(rest);
+    first
+}
+/// every (type, value) pair over `equal_width_sums`, in that order
+pub fn equal_width_cases() -> Vec<(Ty, J)> {
+    equal_width_sums().into_iter().flat_map(|t| { let vs = all_vals(&t); vs.into_iter().map(move |v| (t.clone(), v)) }).collect()
 }
 /// main := comp (pair w1 w2) (comp (pair (take E_T) (drop E_U)) unit): two witnesses whose types the program forces
 pub fn typed_witness_pair(t: &Ty, u: &Ty) -> J {
